@@ -445,6 +445,9 @@ func (e *Engine) runUnit(c *Contract) (u *Unit) {
 		}
 	}
 	for id := range c.CallAsserts {
+		if strings.HasSuffix(id, "#*") {
+			continue // "every call of X": vacuously fine when there is none
+		}
 		if !u.reached["call "+id] {
 			u.subsetErr(token.NoPos, "contract names call site %q which was not found/reached", id)
 		}
